@@ -12,6 +12,7 @@ from __future__ import annotations
 
 import asyncio
 import math
+import os
 import random
 import selectors as _real_selectors
 import socket
@@ -56,6 +57,7 @@ REQUIRED = [
     "tls1.3",
     "mode:standard",
     "mode:nonstandard",
+    "client_builds_default_context",
 ]
 EXHAUSTIVE = {"quick": False, "thorough": True}
 WATCHDOG = {"quick": 900, "thorough": 7200}
@@ -336,7 +338,7 @@ def sync_session(version: str, std: bool, lib_server: bool, reader: str, k: int 
                             from easynetwork.protocol import StreamProtocol
                             from easynetwork.serializers import StringLineSerializer
 
-                            cli = TCPNetworkClient(lsock, StreamProtocol(StringLineSerializer()), ssl=ctx, server_hostname="localhost", ssl_standard_compatible=std, ssl_handshake_timeout=5, ssl_shutdown_timeout=2)
+                            cli = TCPNetworkClient(lsock, StreamProtocol(StringLineSerializer()), server_hostname="localhost", ssl_handshake_timeout=5, ssl_shutdown_timeout=2, **_client_ssl_kwargs(ctx, std))
                         else:
                             t = SSLStreamTransport(lsock, ctx, retry_interval=1.0, server_side=lib_server, server_hostname=None if lib_server else "localhost", standard_compatible=std, handshake_timeout=5, shutdown_timeout=2, selector_factory=vselect.selector_factory(world))
                         obs["wrap"] = "ok"
@@ -441,6 +443,17 @@ def _client_end(exc: BaseException) -> str:
     return f"error:ConnectionAbortedError<{type(cause).__name__}>"
 
 
+_DEFAULT_CTX = False  # set per shard: let the client build its own default context (ssl=True, ssl_standard_compatible left unset)
+
+
+def _client_ssl_kwargs(ctx, std: bool) -> dict:
+    if _DEFAULT_CTX:
+        # the library's own ssl.create_default_context(): it trusts the fixture certificate through SSL_CERT_FILE
+        os.environ["SSL_CERT_FILE"] = tlspeer.CERT
+        return {"ssl": True}
+    return {"ssl": ctx, "ssl_standard_compatible": std}
+
+
 def async_client_session(version: str, std: bool, k: int | None) -> dict:
     from easynetwork.clients.async_tcp import AsyncTCPNetworkClient
     from easynetwork.protocol import StreamProtocol
@@ -469,7 +482,7 @@ def async_client_session(version: str, std: bool, k: int | None) -> dict:
 
         pt = asyncio.ensure_future(peer_task())
         backend = AsyncIOBackend()
-        cli = AsyncTCPNetworkClient(lsock, StreamProtocol(StringLineSerializer()), backend, ssl=tlspeer.client_context(version), server_hostname="localhost", ssl_standard_compatible=std, ssl_handshake_timeout=5, ssl_shutdown_timeout=2)
+        cli = AsyncTCPNetworkClient(lsock, StreamProtocol(StringLineSerializer()), backend, server_hostname="localhost", ssl_handshake_timeout=5, ssl_shutdown_timeout=2, **_client_ssl_kwargs(tlspeer.client_context(version), std))
         try:
             await cli.wait_connected()
             obs["wrap"] = "ok"
@@ -608,6 +621,9 @@ def plan(tier: str, seed: int) -> list[dict]:
             for std in (True, False):
                 shards.append({"seed": seed * 1000 + i, "kind": kind, "version": version, "std": std, "lib_server": False, "tier": tier})
                 i += 1
+            # ssl=True: the client prepares the default context itself and ssl_standard_compatible keeps its default (True)
+            shards.append({"seed": seed * 1000 + i, "kind": kind, "version": version, "std": True, "lib_server": False, "tier": tier, "default_ctx": True})
+            i += 1
     return shards
 
 
@@ -622,6 +638,10 @@ def _run(kind, version, std, lib_server, reader, k, order="peer-first"):
 
 
 def run_shard(params: dict, ctx) -> None:
+    global _DEFAULT_CTX
+    _DEFAULT_CTX = bool(params.get("default_ctx"))
+    if _DEFAULT_CTX:
+        ctx.count("client_builds_default_context")
     rng = random.Random(params["seed"])
     kind, version, std, lib_server, tier = params["kind"], params["version"], params["std"], params["lib_server"], params["tier"]
     client = kind.endswith("client")
